@@ -299,7 +299,7 @@ pub fn build_offer(fx: &Fix, c: &OCfg) -> Result<Offer, String> {
 
 pub fn offer_accessors(o: &Offer) -> String {
 	format!(
-		"chains={:?} metadata={:?} amount={:?} description={:?} features={:?} expiry={:?} issuer={:?} paths={:?} quantity={:?} signing_pubkey={:?} id={:?} expects_quantity={}",
+		"chains={:?}\x1fmetadata={:?}\x1famount={:?}\x1fdescription={:?}\x1ffeatures={:?}\x1fexpiry={:?}\x1fissuer={:?}\x1fpaths={:?}\x1fquantity={:?}\x1fsigning_pubkey={:?}\x1fid={:?}\x1fexpects_quantity={}",
 		o.chains(),
 		o.metadata(),
 		o.amount(),
@@ -338,7 +338,7 @@ pub fn check_offer(fx: &Fix, c: &OCfg) -> Result<Result<Offer, String>, CheckErr
 	}
 	let (ab, ap) = (offer_accessors(&offer), offer_accessors(&parsed));
 	if ab != ap {
-		return Err(("bolt12-offer-roundtrip-accessors", format!("built {{{}}} parsed {{{}}}", ab, ap)));
+		return Err(("bolt12-offer-roundtrip-accessors", crate::diff_detail(&ab, &ap)));
 	}
 	let s = offer.to_string();
 	match s.parse::<Offer>() {
@@ -493,7 +493,7 @@ pub fn build_request(fx: &Fix, offer: &Offer, oc: &OCfg, rc: &RCfg) -> Result<In
 
 pub fn request_accessors(r: &InvoiceRequest) -> String {
 	format!(
-		"chains={:?} metadata={:?} amount={:?} description={:?} features={:?} expiry={:?} issuer={:?} paths={:?} quantity={:?} signing_pubkey={:?} | payer_metadata={} chain={:?} amount_msats={:?} has_amount={} req_features={:?} quantity={:?} payer={:?} note={:?} hrn={:?} sig={:?}",
+		"chains={:?}\x1fmetadata={:?}\x1famount={:?}\x1fdescription={:?}\x1ffeatures={:?}\x1fexpiry={:?}\x1fissuer={:?}\x1fpaths={:?}\x1fquantity={:?}\x1fsigning_pubkey={:?}\x1fpayer_metadata={}\x1fchain={:?}\x1famount_msats={:?}\x1fhas_amount={}\x1freq_features={:?}\x1fquantity={:?}\x1fpayer={:?}\x1fnote={:?}\x1fhrn={:?}\x1fsig={:?}",
 		r.chains(),
 		r.metadata(),
 		r.amount(),
@@ -532,7 +532,7 @@ pub fn check_request(fx: &Fix, offer: &Offer, oc: &OCfg, rc: &RCfg) -> Result<Re
 	}
 	let (ab, ap) = (request_accessors(&req), request_accessors(&parsed));
 	if ab != ap {
-		return Err(("bolt12-invreq-roundtrip-accessors", format!("built {{{}}} parsed {{{}}}", ab, ap)));
+		return Err(("bolt12-invreq-roundtrip-accessors", crate::diff_detail(&ab, &ap)));
 	}
 	let mut bad = Vec::new();
 	let q = r_quantity(rc[2]);
@@ -709,7 +709,7 @@ pub fn build_invoice(fx: &Fix, oc: &OCfg, req: &InvoiceRequest, ic: &ICfg) -> Re
 
 pub fn invoice_accessors(i: &Bolt12Invoice) -> String {
 	format!(
-		"paths={:?} created_at={:?} relative_expiry={:?} fallbacks={:?} features={:?} signing_pubkey={:?} for_refund={} offer_chains={:?} chain={:?} metadata={:?} amount={:?} offer_features={:?} description={:?} absolute_expiry={:?} issuer={:?} message_paths={:?} supported_quantity={:?} issuer_signing_pubkey={:?} payer_metadata={} req_features={:?} quantity={:?} payer={:?} note={:?} payment_hash={:?} amount_msats={} sig={:?} hash={} offer_id={:?}",
+		"paths={:?}\x1fcreated_at={:?}\x1frelative_expiry={:?}\x1ffallbacks={:?}\x1ffeatures={:?}\x1fsigning_pubkey={:?}\x1ffor_refund={}\x1foffer_chains={:?}\x1fchain={:?}\x1fmetadata={:?}\x1famount={:?}\x1foffer_features={:?}\x1fdescription={:?}\x1fabsolute_expiry={:?}\x1fissuer={:?}\x1fmessage_paths={:?}\x1fsupported_quantity={:?}\x1fissuer_signing_pubkey={:?}\x1fpayer_metadata={}\x1freq_features={:?}\x1fquantity={:?}\x1fpayer={:?}\x1fnote={:?}\x1fpayment_hash={:?}\x1famount_msats={}\x1fsig={:?}\x1fhash={}\x1foffer_id={:?}",
 		i.payment_paths(),
 		i.created_at(),
 		i.relative_expiry(),
@@ -761,7 +761,7 @@ pub fn check_invoice_roundtrip(inv: &Bolt12Invoice, ic: &ICfg, exp_amount: u64, 
 	}
 	let (ab, ap) = (invoice_accessors(inv), invoice_accessors(&parsed));
 	if ab != ap {
-		return Err(("bolt12-invoice-roundtrip-accessors", format!("built {{{}}} parsed {{{}}}", ab, ap)));
+		return Err(("bolt12-invoice-roundtrip-accessors", crate::diff_detail(&ab, &ap)));
 	}
 	let mut bad = Vec::new();
 	if parsed.amount_msats() != exp_amount {
@@ -912,7 +912,7 @@ pub fn build_refund(fx: &Fix, c: &FCfg) -> Result<Refund, String> {
 
 pub fn refund_accessors(r: &Refund) -> String {
 	format!(
-		"description={:?} expiry={:?} issuer={:?} paths={:?} payer_metadata={} chain={:?} amount_msats={} features={:?} quantity={:?} payer={:?} note={:?}",
+		"description={:?}\x1fexpiry={:?}\x1fissuer={:?}\x1fpaths={:?}\x1fpayer_metadata={}\x1fchain={:?}\x1famount_msats={}\x1ffeatures={:?}\x1fquantity={:?}\x1fpayer={:?}\x1fnote={:?}",
 		r.description().0,
 		r.absolute_expiry(),
 		r.issuer().map(|d| d.0.to_string()),
@@ -945,7 +945,7 @@ pub fn check_refund(fx: &Fix, c: &FCfg) -> Result<Result<Refund, String>, CheckE
 	}
 	let (ab, ap) = (refund_accessors(&refund), refund_accessors(&parsed));
 	if ab != ap {
-		return Err(("bolt12-refund-roundtrip-accessors", format!("built {{{}}} parsed {{{}}}", ab, ap)));
+		return Err(("bolt12-refund-roundtrip-accessors", crate::diff_detail(&ab, &ap)));
 	}
 	let s = refund.to_string();
 	match s.parse::<Refund>() {
@@ -1043,7 +1043,7 @@ pub fn build_static_invoice(fx: &Fix, offer: &Offer, ic: &ICfg, n_held: u8) -> R
 
 pub fn static_accessors(i: &StaticInvoice) -> String {
 	format!(
-		"paths={:?} created_at={:?} relative_expiry={:?} fallbacks={:?} features={:?} signing_pubkey={:?} chain={:?} metadata={:?} amount={:?} offer_features={:?} description={:?} absolute_expiry={:?} issuer={:?} message_paths={:?} held={:?} quantity={:?} issuer_signing_pubkey={:?} sig={:?} offer_id={:?}",
+		"paths={:?}\x1fcreated_at={:?}\x1frelative_expiry={:?}\x1ffallbacks={:?}\x1ffeatures={:?}\x1fsigning_pubkey={:?}\x1fchain={:?}\x1fmetadata={:?}\x1famount={:?}\x1foffer_features={:?}\x1fdescription={:?}\x1fabsolute_expiry={:?}\x1fissuer={:?}\x1fmessage_paths={:?}\x1fheld={:?}\x1fquantity={:?}\x1fissuer_signing_pubkey={:?}\x1fsig={:?}\x1foffer_id={:?}",
 		i.payment_paths(),
 		i.created_at(),
 		i.relative_expiry(),
@@ -1077,13 +1077,13 @@ pub fn check_static_roundtrip(offer: &Offer, inv: &StaticInvoice, ic: &ICfg, n_h
 	}
 	let (ab, ap) = (static_accessors(inv), static_accessors(&parsed));
 	if ab != ap {
-		return Err(("bolt12-static-roundtrip-accessors", format!("built {{{}}} parsed {{{}}}", ab, ap)));
+		return Err(("bolt12-static-roundtrip-accessors", crate::diff_detail(&ab, &ap)));
 	}
 	let mut bad = Vec::new();
 	if parsed.created_at() != i_created_at(ic[4]) {
 		bad.push(format!("created_at {:?} != {:?}", parsed.created_at(), i_created_at(ic[4])));
 	}
-	let exp_rel = Duration::from_secs(i_rel_expiry(ic[1]).map(|x| x as u64).unwrap_or(7200));
+	let exp_rel = Duration::from_secs(i_rel_expiry(ic[1]).map(|x| x as u64).unwrap_or(3600 * 24 * 14));
 	if parsed.relative_expiry() != exp_rel {
 		bad.push("relative_expiry".to_string());
 	}
